@@ -11,7 +11,8 @@ mod mod_test;
 // The text stays inside the runtime as a string, so it is written as UTF-8 (the
 // ISO-8859-1 default of the properties format cannot be stored in a string value).
 // Control characters are written as \uXXXX escapes with all four digits, which is what
-// the format defines and what map_load_properties reads back.
+// the format defines and what map_load_properties reads back. So is U+FEFF: written as it
+// is at the start of the text, a reader takes it for a byte order mark and drops it.
 fn escape(text: &str) -> String {
     let mut escaped = String::new();
     for character in text.chars() {
@@ -26,7 +27,9 @@ fn escape(text: &str) -> String {
             '=' => escaped.push_str("\\="),
             '!' => escaped.push_str("\\!"),
             '#' => escaped.push_str("\\#"),
-            _ if character < ' ' => escaped.push_str(&format!("\\u{:04x}", character as u32)),
+            _ if character < ' ' || character == '\u{feff}' => {
+                escaped.push_str(&format!("\\u{:04x}", character as u32))
+            }
             _ => escaped.push(character),
         }
     }
